@@ -1,8 +1,18 @@
 """Registry entry, manifest texts for C08."""
 
 ENTRY = {'parts': [{'scenario': 'scenarios.s_pool', 'chunk': 6}],
-         'quick': {'runs': 2500, 'budget': 60}, 'thorough': {'runs': 150000, 'budget': 1200}}
+         'quick': {'runs': 2500, 'budget': 55}, 'thorough': {'runs': 150000, 'budget': 1200}}
 
-TEXT = {'level': 'TODO', 'ref': 'DESIGN.md 5 (C08), 4 (S-POOL)', 'note': 'TODO'}
-
-ENABLED = False
+TEXT = {'level': 'Seeded search over worker states x termination paths: terminate(), terminate() twice, finalizer '
+          'without terminate (drop), with-block, terminate_job, operator SIGTERM/SIGHUP/SIGQUIT to a worker '
+          "that is idle / waiting for the queue lock / inside a program / inside the program's own except "
+          'block; jobs queued and running; threads on/off. Oracle: terminate() returns within 60 simulated '
+          's, then no worker pid is alive and (1 s later) no pool thread runs, outcomes observed before stay '
+          'intact, a signalled worker executes no further program step, takes no further job, runs its exit '
+          'callback and exits.',
+ 'note': 'Trusted: the simulated kernel (simos) models Linux semaphores, pipes, poll, process table, signals '
+         'and wait statuses faithfully (stub conformance: selftest/conformance.py); BaseProcess._bootstrap '
+         'is replaced by a replica of its exit-code mapping (checked by C19); start method is spawn-like '
+         '(pickled copy). Workers die uncatchably only inside task code or between jobs; pipes do not lose '
+         'bytes. Sampling, not proof.',
+ 'ref': 'DESIGN.md 5 (C08), 3, 4 (S-POOL)'}
